@@ -604,19 +604,38 @@ func addrIndexKey(branch, index uint32) uint64 {
 func (a *AddrManager) updateManagedAddress(dbTransaction db.DBTransaction, managedAddresses []*ManagedAddress) error {
 	a.mu.Lock()
 	defer a.mu.Unlock()
-	for _, managedAddress := range managedAddresses {
-		a.addrs[managedAddress.address] = managedAddress
-		a.index[addrIndexKey(managedAddress.derivationPath.Branch, managedAddress.derivationPath.Index)] = managedAddress.address
-	}
-
+	// read first: when the read fails nothing has entered the in-memory table
 	am := dbTransaction.FetchBucket(a.storage)
 	inChildNUm, exChildNum, err := fetchChildNum(am)
 	if err != nil {
 		return err
 	}
+	for _, managedAddress := range managedAddresses {
+		a.addrs[managedAddress.address] = managedAddress
+		a.index[addrIndexKey(managedAddress.derivationPath.Branch, managedAddress.derivationPath.Index)] = managedAddress.address
+	}
 	a.branchInfo.nextExternalIndex = exChildNum
 	a.branchInfo.nextInternalIndex = inChildNUm
 	return nil
+}
+
+// forgetManagedAddress undoes updateManagedAddress for a transaction that did not commit: it
+// needs no database access, so it cannot fail.
+func (a *AddrManager) forgetManagedAddress(managedAddresses []*ManagedAddress) {
+	a.mu.Lock()
+	defer a.mu.Unlock()
+	for _, managedAddress := range managedAddresses {
+		branch, index := managedAddress.derivationPath.Branch, managedAddress.derivationPath.Index
+		delete(a.addrs, managedAddress.address)
+		delete(a.index, addrIndexKey(branch, index))
+		if branch == InternalBranch {
+			if index < a.branchInfo.nextInternalIndex {
+				a.branchInfo.nextInternalIndex = index
+			}
+		} else if index < a.branchInfo.nextExternalIndex {
+			a.branchInfo.nextExternalIndex = index
+		}
+	}
 }
 
 func (a *AddrManager) getPrivKeyBtcec(addr string, password []byte) (*btcec.PrivateKey, error) {
